@@ -168,7 +168,7 @@ pub fn glue_heartbeat_proxy(writer_proxy: &mut RtpsWriterProxy, reader_guid: &Gu
     }
 }
 
-/// Replica of the per-reader body of `handle_gap_submessage` (communication_methods.rs:579-591).
+/// Replica of the per-reader body of `handle_gap_submessage` (communication_methods.rs:579-592).
 pub fn glue_gap(r: &mut RtpsStatefulReader, gap: &GapSubmessage, src: GuidPrefix) {
     let writer_guid = Guid::new(src, gap.writer_id());
     if let Some(writer_proxy) = r.matched_writer_lookup(writer_guid) {
@@ -176,11 +176,11 @@ pub fn glue_gap(r: &mut RtpsStatefulReader, gap: &GapSubmessage, src: GuidPrefix
     }
 }
 
-/// The two loops `handle_gap_submessage` executes on the looked-up writer proxy.
+/// The statements `handle_gap_submessage` executes on the looked-up writer proxy (since /repo commit
+/// 7df85da: one range call for gapStart..gapList.base, then one call per bit of the bitmap).
 pub fn glue_gap_proxy(writer_proxy: &mut RtpsWriterProxy, gap: &GapSubmessage) {
-    for seq_num in gap.gap_start()..gap.gap_list().base() {
-        writer_proxy.irrelevant_change_set(seq_num)
-    }
+    writer_proxy.irrelevant_change_range(gap.gap_start(), gap.gap_list().base());
+
     for seq_num in gap.gap_list().set() {
         writer_proxy.irrelevant_change_set(seq_num)
     }
